@@ -402,7 +402,15 @@ func run(c *h.Check) {
 		}
 		c.Explore(seqScenario(s), bound, 4000, false)
 	}
+	cc := concases(c.Thorough())
+	for _, x := range cc {
+		if c.TimeUp() {
+			return
+		}
+		c.Explore(conScenario(x), bound+1, 20000, false)
+	}
 	if c.Worker == 0 {
+		c.Note(fmt.Sprintf("%d cases of two concurrent publishers (preemption bound %d)", len(cc), bound+1))
 		c.Note(fmt.Sprintf("%d single-publish cases, %d sequences of publishes on one bus", len(cs), len(sq)))
 	}
 }
@@ -416,6 +424,11 @@ func replay(c *h.Check, rf *h.ReplayFile) []vrt.Violation {
 	for _, s := range seqcases(true) {
 		if s.String() == rf.Scenario {
 			return h.ReplaySchedule(seqScenario(s), rf)
+		}
+	}
+	for _, x := range concases(true) {
+		if x.String() == rf.Scenario {
+			return h.ReplaySchedule(conScenario(x), rf)
 		}
 	}
 	vrt.MachineryFault("unknown case %q", rf.Scenario)
